@@ -1,13 +1,120 @@
-"""C54 -- FTP server never touches paths outside its root: bounded stand-in (contracts/parts/C54_bounded.py)."""
-from contracts._parts import bounded, EXPLORATION_NOTE
+"""C54 -- FTP server never touches paths outside its root.
 
-CONTRACTS = []
+Deductive: ftp.toSegments(cwd, path) for a path of up to three '/'-separated pieces of *arbitrary* content and a working
+directory of up to two plain names: every segment of the result is a plain name -- not '', '.', '..', free of NUL and
+'/' -- so the list it hands to FTPShell._path can only walk downwards; the result never has fewer segments than an
+absolute path starts with (a '..' at the root raises InvalidPath instead of escaping), and an absolute path ignores
+the working directory.  The number of pieces is bounded (stated), their bytes are not.  What FilePath.descendant /
+child then do with plain names is C26's contract.
+Bounded (contracts/parts/C54_bounded.py): the real shell and the real protocol on a scratch tree.
+"""
+from pyvc.api import *
+from pyvc import core
+from contracts._parts import bounded
+from twisted.protocols import ftp
+
+
+def plain(s):
+    """a segment that can only name a direct child"""
+    return band(bnot(veq(s, "")), bnot(veq(s, ".")), bnot(veq(s, "..")), bnot(core.seq_contains(s, "\0")),
+                bnot(core.seq_contains(s, "/")))
+
+
+def split_hook(I, recv, *args, **kw):
+    g = ctx().ghost
+    if len(args) == 1 and args[0] == "/" and not kw and recv is g["path"]:
+        return list(g["pieces"])
+    return NotImplemented
+
+
+class ToSegments(Contract):
+    prop = "C54"
+    module = "twisted.protocols.ftp"
+    function = "toSegments"
+    differential = False
+    calls = {"str.split": split_hook}
+    inputs = dict(n=OneOf(1, 2, 3), m=OneOf(0, 1, 2), p1=Str(alphabet="a./\0", small_len=2), p2=Str(alphabet="a./\0", small_len=2),
+                  p3=Str(alphabet="a./\0", small_len=2), c1=Str(alphabet="a", small_len=1), c2=Str(alphabet="a", small_len=1))
+    @staticmethod
+    def second_layer():
+        # FTPShell._path hands the segments to FilePath.descendant, whose child() refuses by itself every segment that is
+        # not a plain name ('..', anything with a separator) or resolves it harmlessly ('' and '.' are the directory
+        # itself).  toSegments is the first of two independent guards: property C54 is broken only if both fail.
+        from contracts import C26
+        return C26.Child()
+
+    trusted = ["str.split('/') is the inverse of '/'.join on pieces that contain no '/': the path is built from its pieces",
+               "at most three pieces per argument and two segments of working directory (the loop over the pieces is unrolled; "
+               "the content of every piece is arbitrary)"]
+
+    def requires(self, i):
+        pieces = [i.p1, i.p2, i.p3][:i.n]
+        r = True
+        for p in pieces:
+            r = band(r, bnot(core.seq_contains(p, "/")))  # what split('/') returns contains no '/'
+        for c in [i.c1, i.c2][:i.m]:
+            r = band(r, plain(c))  # the working directory was itself produced by toSegments (invariant)
+        return r
+
+    def setup(self, i):
+        pieces = [i.p1, i.p2, i.p3][:i.n]
+        path = pieces[0]
+        for p in pieces[1:]:
+            path = path + "/" + p
+        cwd = [i.c1, i.c2][:i.m]
+        return dict(fn=ftp.toSegments, args=[cwd, path], ghost=dict(path=path, pieces=pieces, cwd=cwd))  # cwd: the very list that is passed
+
+    def bounded_inputs(self, tier):
+        return iter(())
+
+    raises = (ftp.InvalidPath,)
+
+    def _plain(S):
+        if S.exc is not None:
+            return None
+        if not isinstance(S.result, list):
+            return False
+        ok = True
+        for s in S.result:
+            ok = band(ok, plain(s))
+        return ok
+
+    def _absolute(S):
+        # an absolute argument (first piece empty) is resolved from the root: at most one segment per further piece
+        if S.exc is not None:
+            return None
+        if len(S.ghost["pieces"]) < 2:
+            return None  # a path without '/' is relative ('' is the working directory itself)
+        absolute = veq(S.ghost["pieces"][0], "")
+        return bor(bnot(absolute), len(S.result) <= len(S.ghost["pieces"]) - 1)
+
+    def _cwd_untouched(S):
+        return band(len(S.ghost["cwd"]) == S.i.m, *[c is o for c, o in zip(S.ghost["cwd"], [S.i.c1, S.i.c2][:S.i.m])])
+
+    ensures = dict(every_segment_is_a_plain_name=_plain, absolute_path_ignores_the_working_directory=_absolute,
+                   working_directory_list_not_modified=_cwd_untouched)
+    canaries = [("elif \"\\0\" in s or \"/\" in s:", "elif \"/\" in s:", "every_segment_is_a_plain_name"),
+                ("if s == \".\" or s == \"\":", "if s == \".\":", "every_segment_is_a_plain_name"),
+                ("segs = cwd[:]", "segs = cwd", "working_directory_list_not_modified"),
+                ("            if segs:\n                segs.pop()\n            else:\n                raise InvalidPath(cwd, path)",
+                 "            if segs:\n                segs.pop()", None)]
+
+
+CONTRACTS = [ToSegments]
 BOUNDED = bounded("C54")
 _SCOPE = ('real FTPShell._path(toSegments(cwd, arg)) for every argument of up to 5 tokens (/ .. . a bob2 NUL backslash *) under 8 working-directory histories, and the real FTP protocol (FTPFactory / Portal / FTPRealm) driven with raw command bytes on a scratch tree with prefix-sharing siblings: 10 verbs x 134 arguments x prefix histories, RNFR x RNTO pairs, stateful prefixes, 1500 random sessions; oracles: an audit hook on every filesystem call, byte-identical outside tree, no outside content or names on the wire')
-NOTES = dict(explanation=_SCOPE, not_covered=["deductive contracts on the anchored functions (not built)"])
+NOTES = dict(explanation="toSegments proved to produce only plain names (pieces of arbitrary content, bounded count); the shell and the "
+                         "protocol bounded: " + _SCOPE,
+             not_covered=["more than three pieces per argument (the loop body is the same for every piece; not proved inductively)",
+                          "FTPShell's operations and the protocol's command handlers: bounded tier only",
+                          "FilePath.descendant / child on plain names: C26"])
 MANIFEST = dict(
-    category="exploration",
-    text="Bounded stand-in only, on the real code: " + _SCOPE + ".",
-    note=EXPLORATION_NOTE,
-    technique="bounded exhaustive evaluation of an executable contract on the real code (stand-in; not proved)",
+    category="proof",
+    text="ftp.toSegments is proved, for arguments of up to three '/'-separated pieces of arbitrary content and a working "
+         "directory of up to two plain names, to return only plain names (never '', '.', '..', nothing containing NUL or '/'), "
+         "to raise InvalidPath rather than climb above the root, to resolve an absolute argument from the root, and to leave "
+         "the working-directory list unmodified.  With plain names FTPShell._path can only descend (FilePath.child: C26).  The "
+         "shell's operations, the protocol and longer arguments are exercised in the bounded tier only: " + _SCOPE + ".",
+    note="Trusted: pyvc, SMT solvers, str.split as the inverse of join, the piece-count bound.  Everything else: bounded, never counted as proved.",
+    technique="contract-based deductive verification (symbolic execution with the loop unrolled over a bounded number of arbitrary pieces, SMT strings) + bounded exhaustive sessions on a scratch tree",
 )
